@@ -115,3 +115,17 @@ Definition uid_stable (m1 m2 : fs) : Prop :=
   forall f u1, uidl_at m1 f u1 ->
   exists u2, uidl_at m2 f u2 /\ u_val u2 = u_val u1 /\ u_next u1 <= u_next u2
              /\ (forall uid k, recorded u2 uid k -> uid < u_next u1 -> recorded u1 uid k).
+
+(* ---- vocabulary of CommandProofs.v *)
+Definition no_install (o : fsop) (f : fname) : Prop :=
+  forall n, o <> ORename (PTmp f n) (PCtl f CUidl).
+Definition no_link (o : fsop) : Prop := forall src dst, o <> OLink src dst.
+
+(* the names supplied with one message of an APPEND are printable, and the
+   maildir key contains no colon *)
+Definition wf_amsg (a : amsg) : bool :=
+  forallb value_char (a_key a) && forallb value_char (a_e a) && forallb value_char (a_t a).
+
+(* the uid list after one more message of an APPEND has been recorded *)
+Definition add_rec (u : uidl) (a : amsg) : uidl :=
+  with_rec u [(69, a_e a); (84, a_t a)] (a_key a ++ 58 :: info_of_letters (a_flags a)).
